@@ -49,19 +49,19 @@ Theorem C01_counts_ok : forallb (fun m => negb (plain (snd m)) || counts_ok (snd
 Proof. vm_compute. reflexivity. Qed.
 
 (** whatever the encoder accepts, the decoder reads: the body decodes (to a value of the same layout, never an
-    error), the encoder touched no earlier bit, and the decoded value is a fixed point of encode-then-decode
-    (so decoding twice gives equal messages) *)
+    error) with the same shape -- every list keeps its length and order of elements --, the encoder touched no
+    earlier bit, and the decoded value is a fixed point of encode-then-decode (so decoding twice gives equal messages) *)
 Theorem C01_accepted_decodes : forall n lay d o v d' o', In (n, lay) messages -> plain lay = true ->
   bytes_ok d = true -> 0 <= o -> t_encode_frag lay (d, o) v = Ok (d', o') ->
   o <= o' /\ bytes_ok d' = true /\ zlen d' = zlen d /\ agree d d' 0 o /\
-  exists v', t_decode_frag lay d' o = Ok (v', o') /\
+  exists v', t_decode_frag lay d' o = Ok (v', o') /\ shape v v' /\
     forall d2 o2, bytes_ok d2 = true -> 0 <= o2 -> o2 + (o' - o) <= 8 * zlen d2 ->
     exists d3, t_encode_frag lay (d2, o2) v' = Ok (d3, o2 + (o' - o)) /\ t_decode_frag lay d3 o2 = Ok (v', o2 + (o' - o)).
 Proof.
   intros n lay d o v d' o' Hin Hp Hb Ho E.
   pose proof C01_counts_ok as Hc. rewrite forallb_forall in Hc. specialize (Hc _ Hin). cbn [snd] in Hc. rewrite Hp in Hc. cbn [negb orb] in Hc.
-  destruct (accepted_decodes sig_table ssr_table_1059 ssr_table_1065 SAT_CAP_1059 SAT_CAP_1065 lay Hp Hc d o v d' o' Hb Ho E) as [M [B [L [A [v' D]]]]].
-  split; [exact M|]. split; [exact B|]. split; [exact L|]. split; [exact A|]. exists v'. split; [exact D|].
+  destruct (accepted_decodes sig_table ssr_table_1059 ssr_table_1065 SAT_CAP_1059 SAT_CAP_1065 lay Hp Hc d o v d' o' Hb Ho E) as [M [B [L [A [v' [D Sh]]]]]].
+  split; [exact M|]. split; [exact B|]. split; [exact L|]. split; [exact A|]. exists v'. split; [exact D|]. split; [exact Sh|].
   intros d2 o2 Hb2 Ho2 Hfit.
   destruct (decoded_fixed_point sig_table ssr_table_1059 ssr_table_1065 SAT_CAP_1059 SAT_CAP_1065 lay Hp d' o v' o' B Ho D d2 o2 Hb2 Ho2 Hfit) as [d3 [E3 [_ [_ [_ D3]]]]].
   exists d3. split; assumption.
@@ -79,7 +79,7 @@ Proof. vm_compute. reflexivity. Qed.
 Theorem C01_build_decodes : forall b n v lay fr, lookup n messages = Some lay -> plain lay = true ->
   reach sig_table ssr_table_1059 ssr_table_1065 SAT_CAP_1059 SAT_CAP_1065 messages b ->
   snd (t_build b (MTyped n v)) = Ok fr ->
-  exists f v', frame_new fr = Ok f /\ fr_number f = Some n /\ t_from_frame f = Ok (MTyped n v') /\ t_decode_bytes fr = Ok (MTyped n v').
+  exists f v', frame_new fr = Ok f /\ fr_number f = Some n /\ t_from_frame f = Ok (MTyped n v') /\ shape v v' /\ t_decode_bytes fr = Ok (MTyped n v').
 Proof.
   intros b n v lay fr Hlk Hp Hr H. unfold t_build in H.
   rewrite (history_independent sig_table ssr_table_1059 ssr_table_1065 SAT_CAP_1059 SAT_CAP_1065 messages b (MTyped n v) Hr) in H.
@@ -91,14 +91,14 @@ Proof.
   pose proof C01_counts_ok as Hc. rewrite forallb_forall in Hc. specialize (Hc _ Hin). cbn [snd] in Hc. rewrite Hp in Hc. cbn [negb orb] in Hc.
   destruct (build_decodes sig_table ssr_table_1059 ssr_table_1065 SAT_CAP_1059 SAT_CAP_1065 messages
               ltac:(vm_compute; discriminate) ltac:(vm_compute; discriminate) C01_layouts_fit C01_numbers_fit n v fr d' lay Hlk Hp Hc E)
-    as [f [v' [Hn [Hnum [Hff _]]]]].
-  exists f, v'. split; [exact Hn|]. split; [exact Hnum|]. split; [exact Hff|].
+    as [f [v' [Hn [Hnum [Hff [Sh _]]]]]].
+  exists f, v'. split; [exact Hn|]. split; [exact Hnum|]. split; [exact Hff|]. split; [exact Sh|].
   unfold t_decode_bytes, decode_bytes. rewrite Hn. cbn [bind]. exact Hff.
 Qed.
 Check C01_build_decodes : forall b n v lay fr, lookup n messages = Some lay -> plain lay = true ->
   reach sig_table ssr_table_1059 ssr_table_1065 SAT_CAP_1059 SAT_CAP_1065 messages b ->
   snd (t_build b (MTyped n v)) = Ok fr ->
-  exists f v', frame_new fr = Ok f /\ fr_number f = Some n /\ t_from_frame f = Ok (MTyped n v') /\ t_decode_bytes fr = Ok (MTyped n v').
+  exists f v', frame_new fr = Ok f /\ fr_number f = Some n /\ t_from_frame f = Ok (MTyped n v') /\ shape v v' /\ t_decode_bytes fr = Ok (MTyped n v').
 
 (** non-vacuity: a 1005 body decoded from a buffer, re-encoded into a zeroed one, decodes to itself *)
 Example C01_example :
